@@ -18,7 +18,7 @@ def run(ctx):
     # MC: all snapshots, all choice sequences, all heap arrangements
     ctx.model_check("pool/MCTxOrder", "pool/MCTxOrder" if not ctx.thorough else "pool/MCTxOrderThorough",
                     timeout=T, workers=4, coverage=ctx.thorough, name="MCTxOrder")
-    ctx.model_check("pool/MCTxOrder", "pool/MCTxOrderHeap", timeout=T, workers=4, name="MCTxOrderHeap")
+    ctx.model_check("pool/MCTxOrder", "pool/MCTxOrderHeap" if not ctx.thorough else "pool/MCTxOrderHeapThorough", timeout=T, workers=4, name="MCTxOrderHeap")
     # R (exhaustive): complete graph of a smaller domain, every path replayed
     res = ctx.model_check("pool/MCTxOrder", "pool/MCTxOrderEdges" if not ctx.thorough else "pool/MCTxOrderEdgesThorough", tags=("EDGE",), timeout=T, workers=4, name="MCTxOrderEdges")
     edges = parse_edges(res)
